@@ -92,6 +92,7 @@ pub fn to_json(s: &[Decision], img: &FsImage) -> Value {
                 Decision::Cores { n } => json!({ "op": "available_parallelism", "n": n }),
                 Decision::Timeout { fired } => json!({ "op": "timed_wait", "deadline_passed": fired }),
                 Decision::Program { name, available } => json!({ "op": "external_program", "name": name, "installed": available }),
+                Decision::FdLimit { n } => json!({ "op": "open_file_limit", "ulimit_n": n }),
             })
             .collect(),
     )
@@ -148,6 +149,9 @@ pub fn from_json(v: &Value, img: &FsImage) -> Result<Vec<Decision>, String> {
             Some("external_program") => out.push(Decision::Program {
                 name: e["name"].as_str().unwrap_or("").to_string(),
                 available: e["installed"].as_bool().unwrap_or(true),
+            }),
+            Some("open_file_limit") => out.push(Decision::FdLimit {
+                n: e["ulimit_n"].as_u64().unwrap_or(crate::world::DEFAULT_FD_LIMIT as u64) as u32,
             }),
             o => return Err(format!("unknown schedule op {:?}", o)),
         }
